@@ -25,7 +25,7 @@ def content(i, R):
     return (bytes([R.randrange(256) for _ in range(64)]) * (n // 64 + 1))[:n]
 
 
-def build(shape, seed=0, password=None, coder="lzma2", header="lzma", packcrc=False, damaged=(), partialcrc=False):
+def build(shape, seed=0, password=None, coder="lzma2", header="lzma", packcrc=False, damaged=(), partialcrc=False, mixedtimes=False):
     """shape: {members:[{kind, folder, pos, parent}], nfolders}.  Returns (raw, info) with info[i] = {name, data, size, crc}"""
     R = random.Random(seed)
     names = shape_names(shape)
@@ -42,7 +42,13 @@ def build(shape, seed=0, password=None, coder="lzma2", header="lzma", packcrc=Fa
         else:
             d = b""
             files.append({"name": names[i], "kind": "empty", "mtime": 132223104000000000 + i * 10_000_000})
-        info.append({"name": names[i], "data": d, "size": 0 if d is None else len(d), "crc": zlib.crc32(d) if d else 0, "kind": m["kind"]})
+        mt = files[-1]["mtime"]
+        if mixedtimes and (seed + i) % 3 == 1:
+            del files[-1]["mtime"]                    # undefined in a partially defined time vector: stays undefined in every listing
+            mt = None
+        elif mixedtimes and (seed + i) % 5 == 4:
+            mt = files[-1]["mtime"] = [1 << 63, (1 << 64) - 1, 2650467744000000000][i % 3]      # legal FILETIMEs beyond the year 9999
+        info.append({"name": names[i], "data": d, "size": 0 if d is None else len(d), "crc": zlib.crc32(d) if d else 0, "kind": m["kind"], "mtime": mt})
     # folders in order of first appearance of data members; members of a folder must be consecutive among data members
     data_idx = [i for i, m in enumerate(shape["members"]) if m["folder"] != 0]
     folders, last = [], None
@@ -66,7 +72,7 @@ def build(shape, seed=0, password=None, coder="lzma2", header="lzma", packcrc=Fa
             fi += 1
             last = f
         info[i]["hascrc"] = folders[fi]["crc"] != "none"
-    lay = {"files": files, "header": header if not password else "aes", "password": password, "packcrc": bool(packcrc)}
+    lay = {"files": files, "header": header if not password else "aes", "password": password, "packcrc": packcrc if packcrc == "partial" else bool(packcrc)}
     if folders:
         lay["folders"] = folders
     raw, regions = write_archive(lay)
@@ -82,7 +88,7 @@ def build(shape, seed=0, password=None, coder="lzma2", header="lzma", packcrc=Fa
 def arch_event(shape, info, encrypted=False, bypath=True):
     return {"e": "arch", "nfolders": shape["nfolders"], "encrypted": bool(encrypted), "bypath": bool(bypath),
             "members": [dict(m, size=[info[i]["size"] % 65536, info[i]["size"] >> 16], crc=[info[i]["crc"] % 65536, info[i]["crc"] >> 16],
-                             hascrc=bool(info[i].get("hascrc", True)))
+                             hascrc=bool(info[i].get("hascrc", True)), **({"mtdef": info[i]["mtime"] is not None} if "mtime" in info[i] else {}))
                         for i, m in enumerate(shape["members"])]}
 
 
@@ -214,6 +220,22 @@ def run_calls(py7zr, raw, shape, info, calls, *, target="stream", password=None,
                     # a listed CRC of None ("not stored") is not a CRC of 0
                     ev["crcs"] = [[f.crc32 % 65536, f.crc32 >> 16] if f.crc32 is not None else [70000, 70000] for f in L]
                     ev["dirs"] = [bool(f.is_directory) for f in L]
+                    # the listed time: None exactly for an undefined one; the defined value itself where a datetime can hold it
+                    import datetime as _dt
+                    ev["mtdef"], ev["mtsame"] = [], []
+                    for f, x in zip(L, info):
+                        if "mtime" not in x:
+                            ev["mtdef"].append(True)
+                            ev["mtsame"].append(True)
+                            continue
+                        want = x.get("mtime")
+                        try:
+                            wdt = None if want is None else _dt.datetime(1970, 1, 1, tzinfo=_dt.timezone.utc) + _dt.timedelta(microseconds=(want - 116444736000000000) // 10)
+                            rep_ok = True
+                        except OverflowError:
+                            wdt, rep_ok = None, False                     # not representable: any answer but an exception
+                        ev["mtdef"].append(f.creationtime is not None if rep_ok else want is not None)
+                        ev["mtsame"].append((f.creationtime == wdt) if rep_ok else True)
                 elif c["name"] == "getinfo":
                     okk = True
                     for n in names:
